@@ -21,7 +21,7 @@ for d in seeded/*/; do
   [ -f $d/meta.json ] || continue
   prop=$(/venv/bin/python -c "import json;print(json.load(open('$d/meta.json'))['breaks_property'])")
   checks=$(/venv/bin/python -c "import json;print(' '.join(json.load(open('$d/meta.json'))['caught_by']))")
-  git -C /repo apply $d/patch.diff || { echo "| $id | $prop | - | PATCH DOES NOT APPLY | |" >> $out; continue; }
+  git -C /repo apply /verif/$d/patch.diff || { echo "| $id | $prop | - | PATCH DOES NOT APPLY | |" >> $out; continue; }
   for c in $checks; do
     o=$(./run $c quick 2>&1); rc=$?
     nv=$(echo "$o" | grep -c '^VIOLATION')
